@@ -4,7 +4,7 @@
 cd /verif
 WT=/tmp/wt_matrix; git -C /repo worktree remove --force $WT 2>/dev/null; git -C /repo worktree add -q --detach $WT HEAD || exit 2
 export VERIF_REPO=$WT VERIF_BUILD=/tmp/build_matrix VERIF_OUT=/tmp/out_matrix VERIF_JOBS=${MATRIX_JOBS:-8}
-declare -A EXTRA=( [C09]="C07" [C10]="C08 C11" [C16]="C16 C04 C02 C15" [C18]="C18 C01" [C19]="C19 C11 C08" [C12]="C12 C19" [C02]="C02 C12" [C08]="C08 C06" [C04]="C04 C05" [C05]="C05" [C06]="C06" )
+declare -A EXTRA=( [C11]="C11 C08" [C09]="C07" [C10]="C08 C11" [C16]="C16 C04 C02 C15" [C18]="C18 C01" [C19]="C19 C11 C08" [C12]="C12 C19" [C02]="C02 C12" [C08]="C08 C06" [C04]="C04 C05" [C05]="C05" [C06]="C06" )
 OUT=/verif/seeded/MATRIX.tsv; [ -n "$RESUME" ] || : > $OUT; sed -i "/^done$/d" $OUT
 for d in $(ls -d seeded/C*-* | sort -V); do
   s=$(basename $d); prop=${s%-*}
